@@ -51,6 +51,15 @@ def ERec.rline (e : ERec) : String := s!"{e.ttag} {e.lvl} {e.fields}"
 /-- what a rendered line shows: the line number is printed only together with a file name -/
 def ERec.lline (e : ERec) : String :=
   let e' := if e.file.isNone then { e with line := 0 } else e
+  -- the record format cannot tell a text that ends in "(TRUNCATED)" (after a blank or alone) from a truncated text: the
+  -- harness's line parser reads the marker; the byte-exact comparison (W lines) is what distinguishes nothing here either
+  let mk : Bytes := truncMarker.dropLast
+  let e' := if !e'.tr && e'.text.length ≥ mk.length && e'.text.drop (e'.text.length - mk.length) == mk then
+      let pre := e'.text.take (e'.text.length - mk.length)
+      if pre.isEmpty then { e' with text := [], tr := true }
+      else if pre.getLast? == some 32 && pre.length ≥ 2 then { e' with text := pre.dropLast, tr := true }
+      else e'
+    else e'
   s!"{e.ttag} {Char.ofNat (levelCode e.lvl).toNat} {e'.fields} 1"
 
 def colorField (color : Bool) (lvl : Nat) : String :=
@@ -68,22 +77,39 @@ def nameOk (s : String) : Bool :=
 def pathOk (s : String) : Bool :=
   s.length ≥ 1 && s.length ≤ 64 && !s.endsWith "/" && s.all fun c => c.isAlphanum || c == '_' || c == '.' || c == '/'
 
+/-- a name token: plain, or `stem~N` = the stem extended to exactly N characters with its last character (N ≤ 1200) -/
+def expandName (ok : String → Bool) (tok : String) : Option String :=
+  match tok.splitOn "~" with
+  | [t] => if ok t then some t else none
+  | [stem, num] =>
+    match num.toNat? with
+    | some n =>
+      if ok stem && num.length ≥ 1 && num.length ≤ 4 && num.all Char.isDigit && n ≥ stem.length && n ≤ 1200 then
+        some (stem ++ String.ofList (List.replicate (n - stem.length) (stem.toList.getLast?.getD 'x')))
+      else none
+    | none => none
+  | _ => none
+
+/-- texts of the message kind `m`: they end like the truncation marker -/
+def markerTexts : List String := ["(TRUNCATED)", "x (TRUNCATED)", "x(TRUNCATED)", "(TRUNCATED) (TRUNCATED)"]
+
 def parseMsg (T : Nat) (w : String) : Option Msg :=
   match w.splitOn ":" with
   | [t, lv, md, fn, fl, ln, kd, len, seed] => do
     let t ← t.toNat?; let lv ← intOfString? lv; let ln ← intOfString? ln
     let len ← len.toNat?; let seed ← seed.toNat?
-    let kd ← (match kd.toList with | [c] => if "psnfwoe".toList.contains c then some c else none | _ => none)
+    let kd ← (match kd.toList with | [c] => if "psnfwoem".toList.contains c then some c else none | _ => none)
     if t ≥ T || len > (if kd == 'w' then 2147483647 else 200000) || seed > 1000000 || ln.natAbs > 1000000000 || lv.natAbs > 1000 then none else
-    let md ← (if md == "-" then some none else if nameOk md then some (some md) else none)
-    let fn ← (if fn == "-" then some none else if nameOk fn then some (some fn) else none)
-    let fl ← (if fl == "-" then some none else if pathOk fl then some (some fl) else none)
+    let md ← (if md == "-" then some none else (expandName nameOk md).map some)
+    let fn ← (if fn == "-" then some none else (expandName nameOk fn).map some)
+    let fl ← (if fl == "-" then some none else (expandName pathOk fl).map some)
     pure { t := t, level := lv, mod := md, func := fn, file := fl, line := ln, kind := kd, len := len, seed := seed }
   | _ => none
 
 /-- the record LogPrintfFunc dispatches for a message (model parts a, clamp, Basename) -/
 def expectRec (max : Nat) (ttag : Nat) (m : Msg) : ERec :=
-  let body := if m.kind == 'w' || m.kind == 'o' || m.kind == 'e' then [] else genText m.len m.seed
+  let body := if m.kind == 'w' || m.kind == 'o' || m.kind == 'e' then [] else
+              if m.kind == 'm' then asciiBytes (markerTexts.getD (m.len % 4) "") else genText m.len m.seed
   let (text, tr, tags) : Bytes × Bool × List String :=
     match m.kind with
     | 'n' => ([], false, ["fmt-null"])
@@ -104,11 +130,13 @@ def expectRec (max : Nat) (ttag : Nat) (m : Msg) : ERec :=
       | some (t, tr, rounds) =>
         (t, tr, [if tr then "fmt-trunc" else if rounds == 1 then "fmt-stack" else "fmt-exact"]
           ++ (if msg.length + 1 ≥ 2048 && msg.length ≤ 2050 then ["edge2048"] else [])
-          ++ (if msg.length + 1 ≥ max && msg.length ≤ max + 1 then ["edge-max"] else []))
+          ++ (if msg.length + 1 ≥ max && msg.length ≤ max + 1 then ["edge-max"] else [])
+          ++ (if m.kind == 'm' then ["text=marker"] else []))
       | none => ([], false, ["fmt-diverged"])
   { ttag := ttag, lvl := clampLevel m.level, mod := m.mod.getD "???", func := m.func, file := m.file.map basename,
     line := m.line, text := text, tr := tr,
-    tags := tags ++ (if m.level < 0 || m.level ≥ 8 then ["clamp"] else []) ++ (if max == 0 then ["max0"] else []) }
+    tags := tags ++ (if m.level < 0 || m.level ≥ 8 then ["clamp"] else []) ++ (if max == 0 then ["max0"] else [])
+      ++ (if (m.mod.getD "").length ≥ 990 || (m.func.getD "").length ≥ 1000 || ((m.file.map basename).getD "").length ≥ 1000 then ["name>=1KiB-piece"] else []) }
 
 inductive SKind where | mem | file | stream      -- stream = sync/async stdout or syslog: one unbounded "file"
   deriving BEq
@@ -131,6 +159,9 @@ structure SinkSt where
   pending : Array PRec := #[]       -- file/stream sink: everything dispatched to it so far
   aout : Bool := false              -- AsyncStdoutSink: write(2) on fd 1 from the back end
   fl : FileLen := {}                -- file sink: the model state (lengths) replayed from the recorded system calls
+  pipe : Bool := false              -- aoutp: fd 1 is a full non-blocking pipe until `off`
+  reconf : Bool := false            -- file sink: setFilePath/Prefix/SyncEnable/MaxSize were called while it was in use
+  tailKept : Bool := false          -- file sink: the last disable() ended with the kernel still refusing (a tail is retained in memory)
 
 instance : Inhabited SinkSt := ⟨{ kind := .mem }⟩
 
@@ -157,6 +188,9 @@ inductive KEv where
   | cl
   | sy
   | offBegin
+  | pl (ans : PAns)                     -- poll(fd 1, POLLOUT) of the async stdout sink
+  | reopen                              -- setFilePath / setFilePrefix / setFileSyncEnable on a file sink
+  | setMax (n : Nat)                    -- setFileMaxSize
   deriving Inhabited
 
 def parseKEv (aout : Bool) (ws : List String) : Option KEv :=
@@ -166,6 +200,9 @@ def parseKEv (aout : Bool) (ws : List String) : Option KEv :=
   | ["c", _] => some .cl
   | ["y", _] => some .sy
   | ["off-begin"] => some .offBegin
+  | ["reopen"] => some .reopen
+  | ["setmax", n] => n.toNat?.map .setMax
+  | ["p", r, _] => some (.pl (if r == "ready" then .ready else if r == "0" then .timeout else if r == "-EINTR" then .eintr else .err))
   | ["w", a, r] => do
     let a ← a.toNat?
     if r.startsWith "-" then
@@ -190,8 +227,30 @@ def takeLoop : Nat → Nat → List KEv → List WAns → Except String (List WA
       | .err => .ok ((ans :: acc).reverse, rest)
     | _ => .error s!"the write loop stopped with {rem} bytes left although the kernel refused nothing"
 
+/-- the write loop of the async stdout sink: like `takeLoop`, and every EAGAIN must be followed by exactly one `poll` (its answer
+becomes part of the oracle); returns the answers of one `flush()` -/
+def takeLoopS : Nat → Nat → List KEv → List SAns → Except String (List SAns × List KEv)
+  | 0, _, evs, acc => .ok (acc.reverse, evs)
+  | fuel + 1, rem, evs, acc =>
+    if rem == 0 then .ok (acc.reverse, evs) else
+    match evs with
+    | .wr a ans nm :: rest =>
+      if a != rem then .error s!"write asked for {a} bytes, the model's loop has {rem} left" else
+      if nm == "EAGAIN" then
+        match rest with
+        | .pl p :: rest' => takeLoopS fuel rem rest' (.again p :: acc)
+        | _ => .error "write() failed with EAGAIN: the model's loop waits in poll() before it writes again, the implementation did not"
+      else
+      match ans with
+      | .acc k => if k == 0 then .ok ((SAns.acc 0 :: acc).reverse, rest) else takeLoopS fuel (rem - k) rest (.acc k :: acc)
+      | .eintr => takeLoopS fuel rem rest (.eintr :: acc)
+      | .err => .ok ((SAns.err :: acc).reverse, rest)
+    | .pl _ :: _ => .error "poll() on fd 1 although the last write() did not fail with EAGAIN"
+    | _ => .error s!"the write loop stopped with {rem} bytes left although the kernel refused nothing (after EAGAIN / EINTR from poll() the loop goes on)"
+
 structure Replay where
   fl : FileLen
+  max : Nat := 0
   refusedAfterOff : Bool := false       -- some system call was refused after disable() began
   refused : Bool := false               -- some system call was refused at all
   sawOff : Bool := false
@@ -205,6 +264,15 @@ def replayFile (max : Nat) : Nat → Replay → List KEv → Except String Repla
     match ev with
     | .offBegin => replayFile max fuel { r with sawOff := true } evs
     | .sy => replayFile max fuel r evs
+    | .pl _ => .error "poll() on a file sink"
+    | .setMax n => replayFile n fuel { r with max := n } evs
+    | .reopen =>
+      -- CHECK_CLOSE_RESET_FD(fd_): the open file (if any) is closed whatever its size; the cache is not touched
+      if r.fl.cur.isSome then
+        match evs with
+        | .cl :: rest => replayFile max fuel { r with fl := reopenLen r.fl } rest
+        | _ => .error "a reconfiguration closes the open log file in the model; the implementation did not close it"
+      else replayFile max fuel r evs
     | .cl => .error "close() of the log file where the model's flush() keeps it open (unwritten tail or below the limit)"
     | .mk ok =>
       if r.fl.cur.isSome then .error "mkdir while a log file is open" else
@@ -251,12 +319,14 @@ def replayStdout : Nat → Replay → List KEv → Except String Replay
     match ev with
     | .offBegin => replayStdout fuel { r with sawOff := true } evs
     | .wr a _ _ =>
-      match takeLoop (evs.length + 2) a (ev :: evs) [] with
+      match takeLoopS (2 * evs.length + 4) a (ev :: evs) [] with
       | .error e => .error e
       | .ok (answers, rest) =>
-        -- stdoutFlush: what reached fd 1 is (writeLoopLen answers a).1; a hard answer drops the rest of the batch
-        let hard := answers.any (fun x => !x.soft)
-        replayStdout fuel (if hard then { r with refused := true, refusedAfterOff := r.refusedAfterOff || r.sawOff } else r) rest
+        -- stdoutLoop: what reached fd 1 / what `cache_.clear()` dropped; only a hard answer to write() may drop anything
+        let res := stdoutLoop answers (List.replicate a 0)
+        if !res.2.isEmpty && answers.all (·.soft) then .error "the model's loop drops nothing here" else
+        replayStdout fuel (if !res.2.isEmpty then { r with refused := true, refusedAfterOff := r.refusedAfterOff || r.sawOff } else r) rest
+    | .pl _ => .error "poll() on fd 1 outside a write loop"
     | _ => replayStdout fuel r evs
 
 
@@ -356,15 +426,19 @@ def stepOp (a : TA) (line : String) : TA :=
     | _, _, _, _, _ => expectLine a "bad-op" "malformed op"
   | "sink" :: kind :: cfgw =>
     let isSout := kind == "sout" && cfgw.isEmpty
-    let isA := (kind == "aout" || kind == "syslog") && cfgw.length == 4
+    let isA := ((kind == "aout" || kind == "syslog") && cfgw.length == 4) || (kind == "aoutp" && cfgw.length == 5)
+    -- (aoutp: nobody reads fd 1 until `off`, so the async pipe must be able to hold everything that is logged: >= 100000 bytes)
+    let roomy := kind != "aoutp" || (match cfgw.map (·.toNat?.getD 0) with | [bsz, _, bmax, _, _] => bsz * bmax ≥ 100000 | _ => false)
+    let pszOk := roomy && kind != "aoutp" || roomy && (match cfgw.getLast? with | some w => w.length ≤ 6 && (w.toNat?.map (fun n => n ≥ 4096 && n ≤ 65536)).getD false | none => false)
+    let cfgw := if kind == "aoutp" then cfgw.take 4 else cfgw
     let nums := cfgw.map (·.toNat?.getD 0)
-    let okCfg := cfgw.all (fun w => w.toNat?.isSome && w.length ≤ 9) &&
+    let okCfg := pszOk && cfgw.all (fun w => w.toNat?.isSome && w.length ≤ 9) &&
       (match nums with
        | [bsz, bmin, bmax, ival] => !(bsz = 0 || bmin = 0 || bmin > bmax || ival = 0 || bsz > 1000000 || bmax > 64 || ival > 1000)
        | _ => true)
     let fd1 := kind != "syslog"
     if !(isSout || isA) || !okCfg || a.sinks.size ≥ 6 || (fd1 && a.sinks.any (·.fd1)) then expectLine a "bad-op" "malformed op" else
-    let a := { a with sinks := a.sinks.push { kind := .stream, fd1 := fd1, aout := kind == "aout" }, tags := a.tags ++ ["sink-" ++ kind] }
+    let a := { a with sinks := a.sinks.push { kind := .stream, fd1 := fd1, aout := kind == "aout" || kind == "aoutp", pipe := kind == "aoutp" }, tags := a.tags ++ ["sink-" ++ kind] }
     expectLine a s!"P sink {a.sinks.size} {kind}" "sink"
   | ["color", k, v] =>
     match sinkOf a k with
@@ -381,16 +455,33 @@ def stepOp (a : TA) (line : String) : TA :=
       | [l, r] =>
         let lc := l.toList
         (match lc with
-         | c :: ds => "wocydWOCYD".toList.contains c && !ds.isEmpty && ds.length ≤ 4 && ds.all Char.isDigit &&
+         | c :: ds => "wocydpWOCYDP".toList.contains c && !ds.isEmpty && ds.length ≤ 4 && ds.all Char.isDigit &&
             (let kind := c.toLower
              if r.toList.head?.map Char.isDigit == some true then r.length ≤ 7 && r.toList.all Char.isDigit && (r.toNat?.getD 0) ≥ 1 && kind == 'w'
-             else (r == "ZERO" && kind == 'w') || ["EINTR", "EAGAIN", "ENOSPC", "EIO", "EFBIG", "EDQUOT", "EPIPE", "EMFILE", "EACCES", "EEXIST", "EBADF"].contains r)
+             else (r == "ZERO" && (kind == 'w' || kind == 'p')) || (r == "READY" && kind == 'p') ||
+                  ["EINTR", "EAGAIN", "ENOSPC", "EIO", "EFBIG", "EDQUOT", "EPIPE", "EMFILE", "EACCES", "EEXIST", "EBADF", "ENOMEM", "EINVAL"].contains r)
          | [] => false)
       | _ => false
     match sinkOf a k with
     | some (_, s) =>
       if ents.isEmpty || ents.length > 64 || !(s.kind == .file || s.aout) || !ents.all entOk then expectLine a "bad-op" "malformed op"
       else expectLine { a with tags := a.tags ++ ["kfault"] ++ (if ents.any (fun e => e.startsWith "o" || e.startsWith "O" || e.startsWith "d" || e.startsWith "D") then ["kfault-open"] else []) } "P kfault" "kfault"
+    | none => expectLine a "bad-op" "malformed op"
+  | ["sig", k, n] =>
+    match sinkOf a k with
+    | some (_, s) =>
+      if s.pipe && s.enabled && n.length ≤ 2 && (n.toNat?.map (fun v => v ≥ 1 && v ≤ 20)).getD false then
+        expectLine { a with tags := a.tags ++ ["signal-sent"] } "P sig" "sig"
+      else expectLine a "bad-op" "malformed op"
+    | none => expectLine a "bad-op" "malformed op"
+  | ["fcfg", k, what, v] =>
+    match sinkOf a k with
+    | some (k, s) =>
+      let ok := s.kind == .file && ((what == "path" && (v == "same" || v == "new")) || (what == "prefix" && (v == "same" || v == "new"))
+                 || (what == "sync" && (v == "0" || v == "1")) || (what == "max" && v.length ≤ 9 && v.toNat?.isSome))
+      if !ok then expectLine a "bad-op" "malformed op" else
+      expectLine { a with sinks := a.sinks.set! (k - 1) { s with reconf := true },
+                          tags := a.tags ++ ["file-reconf", "fcfg-" ++ what ++ (if v == "same" then "-same" else "")] } "P fcfg" "fcfg"
     | none => expectLine a "bad-op" "malformed op"
   | ["settle", n] =>
     if n.length ≤ 3 && (n.toNat?.map (fun v => v ≥ 1 && v ≤ 200)).getD false then expectLine a "P settle" "settle" else expectLine a "bad-op" "malformed op"
@@ -432,7 +523,8 @@ def stepOp (a : TA) (line : String) : TA :=
     match sinkOf a k with
     | none => expectLine a "bad-op" "malformed op"
     | some (k, s) =>
-      let s := { s with enabled := false, dirty := false }
+      let wasEnabled := s.enabled
+      let s := { s with enabled := false, dirty := false, pipe := false }
       let a := { a with sinks := a.sinks.set! (k - 1) s }
       if s.kind == .mem then expectLine a s!"P off {k}" "off" else
       -- listing: K <k> <system call> … (recorded calls), F <k> <i> <size> <normalised size>, then per line L/W (or X for damage),
@@ -451,12 +543,12 @@ def stepOp (a : TA) (line : String) : TA :=
       let (a, s) : TA × SinkSt :=
         if evs.length != kl.length then (a.mfail s!"sink {k}: unparsable K line", s) else
         if s.kind == .file then
-          match replayFile s.fmax (evs.length + 1) { fl := s.fl } (evs.filter fun e => match e with | .offBegin => false | _ => true) with
+          match replayFile s.fmax (evs.length + 1) { fl := s.fl, max := s.fmax } (evs.filter fun e => match e with | .offBegin => false | _ => true) with
           | .error e => (a.mfail s!"sink {k}: the recorded system calls are not an execution of the model's flush(): {e}", s)
           | .ok r =>
             let want := r.fl.closed ++ r.fl.cur.toList
             let a := if want != sizes then a.mfail s!"sink {k}: file sizes {sizes} differ from the model's {want} (replayed from the recorded system calls)" else a
-            (a, { s with fl := r.fl })
+            (a, { s with fl := r.fl, fmax := r.max })
         else if s.aout then
           match replayStdout (evs.length + 1) { fl := {} } (evs.filter fun e => match e with | .offBegin => false | _ => true) with
           | .error e => (a.mfail s!"sink {k}: the recorded write() calls on fd 1 are not an execution of the model's flush(): {e}", s)
@@ -466,12 +558,19 @@ def stepOp (a : TA) (line : String) : TA :=
       let ktags := (if anyRefused then ["kernel-refused"] else []) ++ (if refusedAfterOff then ["refused-at-disable"] else [])
         ++ (if evs.any (fun e => match e with | .wr _ (.acc _) _ => false | .wr _ .eintr _ => true | _ => false) then ["write-retried"] else [])
         ++ (if evs.any (fun e => match e with | .op ok => !ok | .mk ok => !ok | _ => false) then ["open-refused"] else [])
+        ++ (if evs.any (fun e => match e with | .pl _ => true | _ => false) then ["poll-after-EAGAIN"] else [])
+        ++ (if evs.any (fun e => match e with | .pl .eintr => true | _ => false) then ["poll-EINTR"] else [])
+        ++ (if evs.any (fun e => match e with | .pl .err => true | .pl .timeout => true | _ => false) then ["poll-error/0"] else [])
+        ++ (if evs.any (fun e => match e with | .wr a (.acc k) _ => k != 0 && k < a | _ => false) then ["short-write"] else [])
       -- a hard error on fd 1: the rest of that batch is dropped (C09_stdout_faults): nothing to compare record by record
       if s.aout && anyRefused then
         expectLine { a with tags := a.tags ++ ktags ++ ["stdout-hard-error"] } s!"P off {k} files={fl.length}" "off" else
       -- when the kernel was still refusing after disable() began, the cached tail is legitimately not on disk: the files hold a
       -- prefix of the records' bytes, possibly ending inside a record (C09_file_whole_records_faults: files ++ cache = records)
-      let prefixOk := s.kind == .file && refusedAfterOff
+      -- (`off` on a sink that is already disabled makes no system call: the verdict of the disable() that did stands)
+      let prefixOk := s.kind == .file && (refusedAfterOff || (!wasEnabled && s.tailKept))
+      let s := { s with tailKept := prefixOk }
+      let a := { a with sinks := a.sinks.set! (k - 1) s }
       let body := lst.filter (fun l => l.startsWith "L " || l.startsWith "X ")
       let xs := lst.filter (·.startsWith "X ")
       let tailPartial := prefixOk && xs.length == 1 && (match body.getLast? with | some l => l.startsWith "X " && (words l).getD 3 "" == "partial" | none => false)
@@ -500,8 +599,10 @@ def stepOp (a : TA) (line : String) : TA :=
         else
         -- (3) rollover rule: every file but the last reached the limit; no empty file (unless the kernel refused the first write
         -- into a new file); files only if records
-        if (sizes.dropLast).any (· == 0) || (sizes.any (· == 0) && !anyRefused && !(s.fl.cur == some 0)) then a.fail s!"sink {k}: an empty log file exists" else
-        if (sizes.dropLast).any (· < s.fmax) then
+        -- (after a reconfiguration the files closed by it may be below the limit, and the limit itself may have changed: the sizes are
+        -- then checked against the replayed model only)
+        if !s.reconf && ((sizes.dropLast).any (· == 0) || (sizes.any (· == 0) && !anyRefused && !(s.fl.cur == some 0))) then a.fail s!"sink {k}: an empty log file exists" else
+        if !s.reconf && (sizes.dropLast).any (· < s.fmax) then
           a.fail s!"file sink {k}: a file was rolled over below the limit {s.fmax}: sizes={sizes}" else
         if !prefixOk && !(sizes.any (· == 0)) && present.isEmpty != (n == 0) then a.fail s!"sink {k}: {n} files for {present.length} records" else
         if s.kind == .stream && n > 1 then a.fail s!"sink {k}: {n} streams" else
